@@ -140,7 +140,7 @@ Print Assumptions C11_returned_factor_feasible_partial.
 
 (* END TO END for the kinds whose operator C12 proves feasible (Proofs/ProxProofs*.v, model of tenalg/proximal.py over the reals):
    factors are matrices of reals given by their rows; op_c12 toR toN other = the C12 model operators for non_negative, simplex,
-   monotonicity, hard_sparsity, normalized_sparsity (lifted with Prox.flatwise / Prox.colwise as in Corr/C12.v) and ARBITRARY
+   monotonicity, hard_sparsity, normalized_sparsity, soft_sparsity, normalize (lifted with Prox.flatwise / Prox.colwise as in Corr/C12.v) and ARBITRARY
    operators `other` for the remaining kinds; toR / toN read a parameter as a real / a natural.  For every request, budget,
    environment and initialisation, a mode on which the kind was requested (computed initialisation, or updated at least once): *)
 Theorem C11_non_negative_end_to_end : forall (P : Type) (truthy : P -> bool) (toR : P -> R) (toN : P -> nat)
@@ -185,6 +185,33 @@ Theorem C11_monotonicity_end_to_end : forall (P : Type) (truthy : P -> bool) (to
   exists Z, nth m fs dM = cols_of Rops Z /\ Forall ndec Z.
 Proof. exact @cp_monotone. Qed.
 Print Assumptions C11_monotonicity_end_to_end.
+
+(* l1 ball (soft_sparsity): the factor is the transpose of columns with l1 norm <= the parameter (parameter > 0).  The coded
+   operator is not the projection inside the ball (C12_l1ball_refuted) but its output always lies in the ball: proved here
+   from C12's simplex feasibility (Proofs/ConstraintsProofsFeasible.v: soft_sparsity_feasible) *)
+Theorem C11_soft_sparsity_end_to_end : forall (P : Type) (truthy : P -> bool) (toR : P -> R) (toN : P -> nat)
+  (other : kind -> P -> mat -> mat) (dM : mat) (msub madd : mat -> mat -> mat) (n : nat) (sp : list (kind * @zspec P))
+  (E : env (M := mat)) (i0 : init (M := mat)) (fixed : list nat) (n_outer n_inner : nat) (zero : mat) (fs : list mat) (m : nat),
+  constrained_cp dM (op_c12 toR toN other) (zvalidate truthy n sp) msub madd E n i0 fixed n_outer n_inner zero = Ok fs ->
+  m < length fs -> init_computed i0 = true \/ (In m (modes_list n fixed) /\ 0 < n_outer) ->
+  forall (s : @zspec P) (p : P), In (KSoftSparsity, s) sp -> zrequested truthy n s m p -> (0 < toR p)%R ->
+  exists Z, nth m fs dM = cols_of Rops Z /\ Forall (fun z => (l1n Rops z <= toR p)%R) Z.
+Proof. exact @cp_soft_sparsity. Qed.
+Print Assumptions C11_soft_sparsity_end_to_end.
+
+(* max-normalisation: max |entry| of the factor = 1 (the code normalises the whole factor) whenever the operator's input v is
+   not zero (otherwise 0/0) and rectangular.  _partial: the side conditions are on the operator's unknown input *)
+Theorem C11_normalize_end_to_end_partial : forall (P : Type) (truthy : P -> bool) (toR : P -> R) (toN : P -> nat)
+  (other : kind -> P -> mat -> mat) (dM : mat) (msub madd : mat -> mat -> mat) (n : nat) (sp : list (kind * @zspec P))
+  (E : env (M := mat)) (i0 : init (M := mat)) (fixed : list nat) (n_outer n_inner : nat) (zero : mat) (fs : list mat) (m : nat),
+  constrained_cp dM (op_c12 toR toN other) (zvalidate truthy n sp) msub madd E n i0 fixed n_outer n_inner zero = Ok fs ->
+  m < length fs -> init_computed i0 = true \/ (In m (modes_list n fixed) /\ 0 < n_outer) ->
+  forall (s : @zspec P) (p : P), In (KNormalize, s) sp -> zrequested truthy n s m p ->
+  exists v : mat, nth m fs dM = op_c12 toR toN other KNormalize p v /\
+    ((0 < maxabs Rops (concat v))%R -> length (concat (nth m fs dM)) = length (concat v) ->
+     maxabs Rops (concat (nth m fs dM)) = 1%R).
+Proof. exact @cp_normalize. Qed.
+Print Assumptions C11_normalize_end_to_end_partial.
 
 (* normalised sparsity: the factor is the operator's output on some v; whenever the kept part of v is not zero (otherwise the
    code divides 0 by 0) and v is rectangular (the output has as many entries as v): unit l2 norm and at most k non-zeros.
